@@ -395,7 +395,10 @@ type genCtx struct {
 	name string
 }
 
-func (g *genCtx) addr4() []byte { g.ctr++; return []byte{10, byte(g.ctr >> 16), byte(g.ctr >> 8), byte(g.ctr)} }
+func (g *genCtx) addr4() []byte {
+	g.ctr++
+	return []byte{10, byte(g.ctr >> 16), byte(g.ctr >> 8), byte(g.ctr)}
+}
 func (g *genCtx) addr6() []byte {
 	g.ctr++
 	return []byte{0xfd, 0, 0, 0, 0, 0, 0, 0, 0, 0, 0, 0, 0, byte(g.ctr >> 16), byte(g.ctr >> 8), byte(g.ctr)}
